@@ -8,7 +8,6 @@ import re
 import sys
 from collections import defaultdict
 from contextlib import contextmanager
-from functools import partial
 from functools import reduce
 from io import StringIO
 from operator import mul
@@ -279,14 +278,20 @@ class RenderContext:
             kwargs["environment"] = self.env
 
         if kwargs:
+            # Template keyword arguments must not replace the render context or
+            # environment we pass to the filter (as they would with
+            # functools.partial). A clash is a TypeError, like any duplicate keyword.
+            def _filter_func(*args: Any, **template_kwargs: Any) -> object:
+                return filter_func(*args, **template_kwargs, **kwargs)
+
             if hasattr(filter_func, "filter_async"):
-                _filter_func = partial(filter_func, **kwargs)
-                _filter_func.filter_async = partial(  # type: ignore
-                    filter_func.filter_async,
-                    **kwargs,
-                )
-                return _filter_func
-            return partial(filter_func, **kwargs)
+
+                def _filter_async(*args: Any, **template_kwargs: Any) -> object:
+                    return filter_func.filter_async(*args, **template_kwargs, **kwargs)
+
+                _filter_func.filter_async = _filter_async  # type: ignore
+
+            return _filter_func
 
         return filter_func
 
